@@ -220,7 +220,9 @@ package allocator
 //@   assert before To4#1: [k4c] forall s1 string, s2 string :: s1 != s2 && (s1 in a.servicesOnIP[net.ipstr(ip)]) && (s2 in a.servicesOnIP[net.ipstr(ip)]) ==> a.allocated[s1].sharing != ""
 //@   assert before To4#1: [k4] forall x string, s1 string, s2 string :: s1 != s2 && (s1 in a.servicesOnIP[x]) && (s2 in a.servicesOnIP[x]) ==> a.allocated[s1].sharing != ""
 //@   assert before To4#1: [keysNext] InvKeysA(a, true, svc, alloc, idx(1) + 1)
+// prometheus bookkeeping only (assumed to have no effect on the state modelled here)
 //@ func deleteStatsFor
+//@   trusted
 //@   modifies nothing
 //@ func field:go.universe.tf/metallb/internal/allocator.Allocator.countersChangedCallback
 //@   trusted
